@@ -199,6 +199,24 @@ func pickExprDoc(r *gen.Rng) (exprs []string, doc DocSpec, src string) {
 	}
 }
 
+var clockJumps = []int64{1e6, 1e9, 61e9, 3601e9, 90000e9, 400 * 86400e9}
+
+// addClockFaults: in one run out of five the simulated clock jumps forward (1 ms … 400 days)
+// before some operations — harmless unless the code under test reads the clock.
+func addClockFaults(w *Workload, master uint64, idx int) {
+	r := &gen.Rng{S: simrt.Mix(master^0xc10c, uint64(idx))}
+	if !r.Chance(1, 5) {
+		return
+	}
+	for ci := range w.Clients {
+		for oi := range w.Clients[ci] {
+			if r.Chance(1, 4) {
+				w.Clients[ci][oi].Jump = clockJumps[r.Intn(len(clockJumps))]
+			}
+		}
+	}
+}
+
 // typedSeed: 0/1 = the small fixed typed documents, otherwise seeded sizes.
 func typedSeed(r *gen.Rng) uint64 {
 	if r.Chance(1, 3) {
@@ -568,6 +586,13 @@ func accountRun(st *Stats, w *Workload, rep *RunReport, seen map[uint64]bool) {
 	if o.Aborted {
 		st.Probes["runs_abandoned_goroutine_capacity"]++
 	}
+	for _, ops := range w.Clients {
+		for _, op := range ops {
+			if op.Jump != 0 {
+				st.Faults["clock_jumps_forward"]++
+			}
+		}
+	}
 	if o.First != 0 {
 		st.Faults["start_skew_runs"]++
 	}
@@ -713,6 +738,9 @@ func schedWorker(prop, tier string, master uint64, from, to int, maxWall time.Du
 			ws = []*Workload{genC06(master, idx)}
 		} else {
 			ws = []*Workload{genC12(master, idx)}
+		}
+		if stage != "sweep" {
+			addClockFaults(ws[0], master, idx)
 		}
 		for _, w := range ws {
 			progressRun(idx)
@@ -883,6 +911,9 @@ func main() {
 	zzverifrt.Active = simrt.Active
 	zzverifrt.GoHook = simrt.Spawn
 	simrt.RealSpawned = zzverifrt.RealSpawned
+	zzverifrt.Clock = simrt.ClockNow
+	zzverifrt.ClockAdvance = simrt.ClockJump
+	simrt.TimerHook = zzverifrt.FireTimers
 	progressOpen(*progressFile)
 
 	if pf := os.Getenv("VERIF_PROF"); pf != "" {
